@@ -49,11 +49,17 @@ Proof. intros; eapply nth_ext; eauto. Qed.
 Lemma sumN_app a b : sumN (a ++ b) = sumN a + sumN b.
 Proof. induction a; simpl; lia. Qed.
 
+Lemma wrap64_spec x : wrap64 x = x mod two64.
+Proof. unfold wrap64. rewrite N.land_ones. reflexivity. Qed.
+
+Lemma wrap8_spec x : wrap8 x = x mod 256.
+Proof. unfold wrap8. rewrite N.land_ones. reflexivity. Qed.
+
 Lemma wrap64_small x : x < two64 -> wrap64 x = x.
-Proof. intros; unfold wrap64; now apply N.mod_small. Qed.
+Proof. intros; rewrite wrap64_spec; now apply N.mod_small. Qed.
 
 Lemma wrap64_lt x : wrap64 x < two64.
-Proof. unfold wrap64; apply N.mod_lt; unfold two64; lia. Qed.
+Proof. rewrite wrap64_spec; apply N.mod_lt; unfold two64; lia. Qed.
 
 (* min_list *)
 Lemma fold_min_le l a : fold_left N.min l a <= a.
